@@ -2,6 +2,7 @@ package eng
 
 import (
 	"fmt"
+	"os"
 	"unsafe"
 
 	"github.com/mlange-42/ark/ecs"
@@ -12,9 +13,10 @@ import (
 // Scenarios pin down the exact trigger of every defect found so far (KNOWN_FINDINGS.txt); for a
 // "fixed:" entry a failure is an ordinary violation, for a "known:" entry it is expected.
 type Scenario struct {
-	Name  string
-	Props []string
-	Run   func() []string
+	Name   string
+	Props  []string
+	Run    func() []string
+	OnlyIf func() bool // nil: always; otherwise the scenario is run (and recorded) only if it returns true
 }
 
 func try(f func()) (p any) {
@@ -720,6 +722,39 @@ var Scenarios = []Scenario{
 		}
 		return out
 	}},
+	{Name: "F29-column-of-2-GiB", Props: []string{"C01", "C11"}, OnlyIf: func() bool { return os.Getenv("VERIF_BIGMEM") == "1" }, Run: func() []string {
+		// thorough tier only (about 2 GiB resident, 15 s): a pointer-free column of exactly 2 GiB must be able to grow
+		var out []string
+		const n = 2048
+		w := ecs.NewWorld(n)
+		m := ecs.NewMap1[bigComp](w)
+		var first, last ecs.Entity
+		i := 0
+		m.NewBatchFn(n, func(e ecs.Entity, c *bigComp) {
+			if i == 0 {
+				first = e
+				c.Data[0], c.Data[len(c.Data)-1] = 11, 12
+			}
+			if i == n-1 {
+				last = e
+				c.Data[0], c.Data[len(c.Data)-1] = 21, 22
+			}
+			i++
+		})
+		var extra ecs.Entity
+		if p := try(func() { extra = m.NewEntityFn(func(c *bigComp) { c.Data[0] = 31 }) }); p != nil {
+			return []string{fmt.Sprintf("creating entity %d with a 1 MiB component (the column holds 2 GiB) panicked while the table grows: %v", n+1, p)}
+		}
+		for _, x := range []struct {
+			e    ecs.Entity
+			a, b byte
+		}{{first, 11, 12}, {last, 21, 22}, {extra, 31, 0}} {
+			if c := m.Get(x.e); c.Data[0] != x.a || c.Data[len(c.Data)-1] != x.b {
+				out = append(out, fmt.Sprintf("component of %v changed by the growth: %d %d", x.e, c.Data[0], c.Data[len(c.Data)-1]))
+			}
+		}
+		return out
+	}},
 	{Name: "K1-loaded-world-reports-pre-reset-handles-alive", Props: []string{"C17"}, Run: func() []string {
 		// KNOWN FINDING (not repaired, see DESIGN section 5): World.Alive reads the pool through a raw pointer without
 		// bounds check; LoadEntities installs a pool of exactly the dump's length, so for handles the source world issued
@@ -748,6 +783,9 @@ var Scenarios = []Scenario{
 		return out
 	}},
 }
+
+// bigComp is a pointer-free component of 1 MiB.
+type bigComp struct{ Data [1 << 20]byte }
 
 // maxComponentIDs registers filler component types until the registry is full and returns all IDs.
 func maxComponentIDs(w *ecs.World) []ecs.ID {
